@@ -49,10 +49,21 @@ RULE = (
     "or Generator): real assign_confidence twice, every DataFrame/Series.sample call recorded (size, random_state, "
     "generator state before / after) and compared with `determconf` (which generator, after which earlier shuffles) "
     "replayed on an independent numpy Generator; result files of the two runs must agree. "
+    "THIRD PASS: pipeline cases also with the optional `filename` column (a str as the FIRST spectrum-key column: the "
+    "fold key of _split then holds a text); split-key case = (small table; optional spectrum columns filename / "
+    "ExpMass / ret_time present or not; run names plain or with quotes, blanks, backslashes, non-ASCII letters; the "
+    "same scan numbers in every run or not; whole or fractional masses; text or Parquet; 2-5 folds): real "
+    "read_pin + OnDiskPsmDataset._split; fold membership compared with `determsplit` (Lean: crc32 of the UTF-8 text "
+    "of the tuple of the first two key cells, argsort, cuts at group starts) fed with the repr texts of the key "
+    "cells, the IndexError of _split with `reject-index`, the Lean crc32 with zlib's on the key texts; in sampled "
+    "cases (every case with a text key in the thorough tier) the same table is split in two fresh interpreters "
+    "under other PYTHONHASHSEED values and the returned index arrays must be identical, element by element; "
+    "model form `unseeded_copy` = ONE PercolatorModel() built without a seed, a deep copy of it handed to each of "
+    "the three runs: brew must be a function of the model object it is given (runs must agree). "
     "distinct = distinct (case, comparison kind); non-trivial = every case"
 )
 HERE = Path(__file__).resolve().parent
-DIMS = ("level_cols", "ncoll", "fasta_decoys", "ties", "ensemble", "cli", "subset", "small_chunks")
+DIMS = ("level_cols", "ncoll", "fasta_decoys", "ties", "ensemble", "cli", "subset", "small_chunks", "text_key")
 
 
 def child(params, hashseed):
@@ -85,7 +96,8 @@ def gen_case(rng, dims=None):
                 fmt=rng.choice(["pin", "parquet"]), peps=rng.choice(["qvality", "qvality", "kde_nnls"]),
                 level_cols=levels if "level_cols" in dims else [], ncoll=2 if "ncoll" in dims else 1,
                 fasta_decoys="fasta_decoys" in dims, ties="ties" in dims, ensemble="ensemble" in dims,
-                cli="cli" in dims, subset="subset" in dims, small_chunks="small_chunks" in dims)
+                cli="cli" in dims, subset="subset" in dims, small_chunks="small_chunks" in dims,
+                text_key="text_key" in dims)
 
 
 def run_case(chk, case, tier):
@@ -512,7 +524,7 @@ def run_fasta_case(chk, case):
 # second pass: how brew gets its model (model=None / a model built on a seed / one Generator for both)
 # ----------------------------------------------------------------------------------------------------------------
 FITLOG = {"log": [], "lock": threading.Lock()}
-MODEL_FORMS = ("none", "built", "shared", "unseeded")
+MODEL_FORMS = ("none", "built", "shared", "unseeded", "unseeded_copy")
 
 
 def gen_modelform_case(rng, form=None, quick=False):
@@ -558,6 +570,12 @@ def run_modelform_case(chk, case):
         elif case["form"] == "shared":
             g = np.random.default_rng(case["seed"])
             model, rng_arg = mokapot.PercolatorModel(rng=g), g
+        elif case["form"] == "unseeded_copy":
+            # third pass: ONE model built without a seed (its cross-validation seed comes from OS entropy and is part
+            # of the OBJECT, `estimator.cv.random_state`); every run gets a deep copy of that object: same inputs
+            if "unseeded" not in shared_model:
+                shared_model["unseeded"] = mokapot.PercolatorModel()
+            model, rng_arg = copy.deepcopy(shared_model["unseeded"]), case["seed"]
         else:
             model, rng_arg = mokapot.PercolatorModel(), case["seed"]
         _, models, scores, descs = mokapot.brew(ds, model, test_fdr=0.05, folds=case["folds"], max_workers=workers,
@@ -591,6 +609,18 @@ def run_modelform_case(chk, case):
         # the caller built PercolatorModel() and left ITS `rng` parameter (documented as the seed of its training)
         # open: one generator unseeded, outside "with a fixed seed" — an input outside the quantifier, tallied
         chk.reject("model-built-without-rng:outside-the-quantifier (runs differ: %s)" % bool(differing))
+        return
+    if case["form"] == "unseeded_copy":
+        # no seed to compare the cross-validation seed with (it is the object's own): agreement is all that is asked
+        if differing:
+            chk.spec_violation("nondeterminism:model-form:unseeded_copy",
+                               dict(case=case, clause="three runs of brew, each on a deep copy of ONE PercolatorModel() "
+                                    f"object, with rng={case['seed']} differ in {differing}: cross-validation seeds "
+                                    f"{[a['cv'] for a in runs]}"))
+        elif len(set(runs[0]["cv"])) != 1 or len(runs[0]["cv"]) != case["folds"]:
+            chk.corr_break("determcv", dict(case=case, impl=dict(cv=runs[0]["cv"]), model="one seed per model object",
+                                            clause="the fold models do not all carry the cross-validation seed of "
+                                                   "the object handed to brew"))
         return
     if differing:
         chk.spec_violation("nondeterminism:default-model" if case["form"] == "none"
@@ -766,7 +796,98 @@ def run_confseed_case(chk, case):
                                                                problems=problems[:4]), model=model))
 
 
+# ----------------------------------------------------------------------------------------------------------------
+# third pass: the fold key of _split (dataset.py:654-699) vs `determsplit`, and across interpreter sessions
+# ----------------------------------------------------------------------------------------------------------------
+def gen_splitkey_case(rng, text=None, children=False):
+    text = rng.random() < 0.6 if text is None else text
+    optional = (["filename"] if text else []) + [c for c in ("ExpMass", "ret_time") if rng.random() < 0.5]
+    n_spectra = rng.choice([6, 12, 25, 40, 70])
+    return dict(kind="splitkey", data_seed=rng.randrange(1 << 30), seed=rng.randrange(1 << 31), n_spectra=n_spectra,
+                per_spectrum=rng.choice([1, 2, 3]), optional=optional, names=rng.choice(["plain", "odd"]),
+                n_files=rng.choice([1, 2, 3, 9]), dup_scans=rng.random() < 0.5, fractional=rng.random() < 0.5,
+                fmt=rng.choice(["pin", "parquet"]), folds=rng.choice([2, 3, 3, 4, 5]), children=children,
+                narrow=rng.choice([None, ["int32", "float32"], ["uint16", "float64"], ["int16", "float32"]]))
+
+
+def start_splitkey_children(case, ex):
+    return [(h, ex.submit(child, dict(case), h)) for h in ((1, 2) if case.get("children") else ())]
+
+
+def run_splitkey_case(chk, case, futs=None):
+    from zlib import crc32
+
+    with P.workdir() as wd:
+        try:
+            obs = c08_child.split_only(case, wd / "k")
+        except Exception as e:
+            chk.reject("splitkey-case-failed:" + type(e).__name__ + ":" + str(e)[:60])
+            return
+    cells, folds = obs["cells"], obs["folds"]
+    chk.count("splitkey: key columns", ",".join(obs["columns"][:2]))
+    chk.count("splitkey: first key cell", "str" if cells and cells[0][0].startswith(("'", '"')) else
+              "numpy scalar" if cells and cells[0][0].startswith("np.") else "python number")
+    chk.count("splitkey: folds", case["folds"])
+    chk.count("splitkey: storage width", "64 bit" if not (case.get("narrow") and case["fmt"] == "parquet")
+              else "/".join(case["narrow"]))
+    texts = sorted({"(" + ", ".join(c[:2]) + ("," if len(c[:2]) == 1 else "") + ")" for c in cells})[:3]
+    out = common.driver_batch([common.req("determsplit", cells, case["folds"])] +
+                              [common.req("determcrc", t) for t in texts])
+    model = common.dec(out[0])
+    chk.case(None, ("splitkey", case["data_seed"], case["seed"]),
+             sample=dict(case=case, columns=obs["columns"], first_row=cells[:1],
+                         sizes=folds if isinstance(folds, str) else [len(f) for f in folds]))
+    for t, o in zip(texts, out[1:]):
+        if common.a_int(common.dec(o)) != crc32(t.encode()):
+            chk.corr_break("determcrc", dict(case=case, impl=crc32(t.encode()), model=common.dec(o), text=t))
+            return
+    # (a) spec, stated directly: the same table split in fresh interpreters under other hash seeds gives the same
+    # index arrays (the generator is seeded, numpy's argsort is a function of the key column)
+    for h, f in (futs if futs is not None else []):
+        try:
+            other = f.result()
+        except Exception as e:
+            chk.reject("child-failed:" + str(e)[:160])
+            continue
+        chk.case(None, ("splitkey-fresh", case["data_seed"], h))
+        chk.count("kind", f"split-key fresh-interpreter hashseed={h}")
+        if other["folds"] != folds or other["cells"] != cells:
+            what = "key cells" if other["cells"] != cells else "fold assignments"
+            moved = None
+            if what == "fold assignments" and not isinstance(folds, str) and not isinstance(other["folds"], str):
+                moved = sum(len(set(a) ^ set(b)) for a, b in zip(folds, other["folds"])) // 2
+            chk.spec_violation("nondeterminism:fold-key:fresh-interpreter",
+                               dict(case=case, clause=f"_split(folds={case['folds']}, rng={case['seed']}) of the same "
+                                    f"table (spectrum columns {obs['columns']}) in a fresh interpreter with "
+                                    f"PYTHONHASHSEED={h}: {what} differ from this process' "
+                                    f"(PYTHONHASHSEED={os.environ.get('PYTHONHASHSEED')}); rows in another fold: {moved}"))
+            return
+    # (b) the model
+    keys, mf = model
+    if mf == "reject-index" or folds == "IndexError":
+        if mf == "reject-index" and folds == "IndexError":
+            chk.reject("split-point-behind-the-last-spectrum:IndexError")
+        else:
+            chk.corr_break("determsplit", dict(case=case, impl=folds if isinstance(folds, str) else [len(f) for f in folds],
+                                               model=mf if isinstance(mf, str) else [len(f) for f in mf]))
+        return
+    got = [sorted(f) for f in folds]
+    exp = [sorted(common.a_int(i) for i in f) for f in mf]
+    if got != exp:
+        chk.corr_break("determsplit", dict(case=case, impl=[f[:8] for f in got], model=[f[:8] for f in exp],
+                                           clause="fold membership is not the one the crc32 keys of the first two "
+                                                  "key cells determine"))
+
+
 def search(chk):
+    # third pass: the cheapest probe of all first — the fold key across interpreter sessions
+    with ThreadPoolExecutor(max_workers=4) as ex:
+        cases = [gen_splitkey_case(chk.rng, text=k % 3 != 2, children=True) for k in range(6 * chk.budget_mult)]
+        started = [(c, start_splitkey_children(c, ex)) for c in cases]
+        for c, futs in started:
+            run_splitkey_case(chk, c, futs)
+    if chk.spec_violations:
+        return
     # second pass: the cheapest probes first (how brew gets its model, the seed argument of assign_confidence)
     for form in ("none", "built", "shared") * chk.budget_mult:
         run_modelform_case(chk, gen_modelform_case(chk.rng, form))
@@ -800,8 +921,23 @@ def main(chk, args):
     forced = [dims[:3] + new[:1], dims[3:] + new[1:]] if chk.tier == "quick" else [None] * n
     forced += [None] * (n - len(forced))
     t0 = time.time()
+    # third pass: the split-key cases; those with fresh interpreters are started now and collected after the pipeline
+    # cases (their start-up overlaps)
+    n_key = 16 if chk.tier == "quick" else 150
+    key_cases = [gen_splitkey_case(chk.rng, text=True if k < 2 else None,
+                                   children=(k < 2 if chk.tier == "quick" else None)) for k in range(n_key)]
+    for c in key_cases:
+        if c["children"] is None:
+            c["children"] = "filename" in c["optional"] and chk.rng.random() < 0.25
+    key_ex = ThreadPoolExecutor(max_workers=2)
+    key_futs = [start_splitkey_children(c, key_ex) for c in key_cases]
     for i in range(n):
         run_case(chk, gen_case(chk.rng, forced[i]), chk.tier)
+    t1 = time.time()
+    for c, f in zip(key_cases, key_futs):
+        run_splitkey_case(chk, c, f)
+    key_ex.shutdown(wait=True)
+    t_key = time.time() - t1
     t1 = time.time()
     for _ in range(8 if chk.tier == "quick" else 60):
         run_rng_case(chk, gen_rng_case(chk.rng))
@@ -811,7 +947,7 @@ def main(chk, args):
     t3 = time.time()
     # second pass: model=None in every run, the other forms sampled
     # (a model built WITHOUT rng is outside the quantifier: generated in the thorough tier only, and tallied as rejected)
-    forms = ["none", chk.rng.choice(["built", "shared"])] if chk.tier == "quick" else list(MODEL_FORMS) * 3
+    forms = ["none", chk.rng.choice(["built", "shared", "unseeded_copy"])] if chk.tier == "quick" else list(MODEL_FORMS) * 3
     for form in forms:
         run_modelform_case(chk, gen_modelform_case(chk.rng, form, quick=chk.tier == "quick"))
     t4 = time.time()
@@ -819,7 +955,8 @@ def main(chk, args):
     for form in (["int", "generator", "omitted"] if chk.tier == "quick" else [None] * 40):
         run_confseed_case(chk, gen_confseed_case(chk.rng, form))
     chk.extra["phase_wall_s"] = dict(pipeline=round(t1 - t0, 1), rng=round(t2 - t1, 1), fasta=round(t3 - t2, 1),
-                                     modelform=round(t4 - t3, 1), confseed=round(time.time() - t4, 1))
+                                     modelform=round(t4 - t3, 1), confseed=round(time.time() - t4, 1),
+                                     splitkey=round(t_key, 1))
     lc = common.leanchecker("C08") if chk.tier == "thorough" else None
     chk.assumptions += [
         "PARTIAL: the theorems carry (i) the inventory obligation: every source of nondeterminism found by the AST "
@@ -836,12 +973,21 @@ def main(chk, args):
         "whose own rng parameter (documented as the seed of its training) is left at None is outside the quantifier: "
         "its hyper-parameter search is seeded from OS entropy by the caller's choice; such cases are generated in the "
         "thorough tier only and tallied under rejected_inputs",
+        "split-key cases: the `repr` texts of the key cells are taken from `spectra_dataframe[spectrum_columns].values` "
+        "row by row, as `np.apply_along_axis` hands them to the key function (CPython / numpy `repr` and `str(tuple)` "
+        "trusted; the model joins the texts as `str(tuple(..))` does); zlib.crc32 is compared with the Lean crc32 on the "
+        "key texts of every case",
+        "a PercolatorModel() the caller builds WITHOUT a seed carries a cross-validation seed drawn from OS entropy in "
+        "its constructor (`estimator.cv.random_state`, model.py:430-436): two such objects are two different inputs; "
+        "brew is required to be a function of the object it is given (form `unseeded_copy`: deep copies of one object "
+        "must give identical runs), not to make two differently seeded objects agree",
         "confidence-seed cases: pandas turns an int random_state into a new RandomState per sample() call and uses a "
         "Generator as it is (pandas.core.common.random_state); DataFrame/Series.sample is observed by wrapping "
         "NDFrame.sample for the duration of the call",
     ]
     chk.finish(build, RULE, search=search, lc=lc,
-               trusted_extra=["tools/gen_repo.py (AST walk -> Generated/Effects.lean)", "sklearn LinearSVC/GridSearchCV, BLAS"])
+               trusted_extra=["tools/gen_repo.py (AST walk -> Generated/Effects.lean)", "sklearn LinearSVC/GridSearchCV, BLAS",
+                              "CPython / numpy repr of the spectrum-key cells, str(tuple), numpy argsort/unique/searchsorted/split"])
 
 
 def replay(chk, path):
@@ -860,6 +1006,9 @@ def replay(chk, path):
         run_modelform_case(chk, case)
     elif kind == "confseed":
         run_confseed_case(chk, case)
+    elif kind == "splitkey":
+        with ThreadPoolExecutor(max_workers=2) as ex:
+            run_splitkey_case(chk, case, start_splitkey_children(dict(case, children=True), ex))
     else:
         run_case(chk, case, "thorough")
     for sig, i in chk.spec_violations:
